@@ -5,7 +5,16 @@ import (
 	"fmt"
 	"math/rand"
 	"os"
+	"path/filepath"
+	"strings"
 	"time"
+
+	"github.com/markusressel/fan2go/internal"
+	"github.com/markusressel/fan2go/internal/configuration"
+	"github.com/markusressel/fan2go/internal/controller"
+	"github.com/markusressel/fan2go/internal/sensors"
+	"github.com/prometheus/client_golang/prometheus"
+	"github.com/spf13/viper"
 )
 
 // C04 — constant curve value: the request settles at one target, the same for every algorithm.
@@ -309,6 +318,117 @@ func genC04Config(r *rand.Rand, i int) c04Config {
 	}
 }
 
+// c04ConfigPath: the algorithms as a user gets them - through the configuration file. Every documented way of
+// selecting an algorithm (no key = default PID, the strings "pid" / "direct", the object forms) is loaded by the real
+// loader, turned into a controller by the daemon's own initializeFanControllers, and must settle like the reference.
+func c04ConfigPath(ctx *Ctx, idx int) {
+	r := ctx.Rng
+	dir := ctx.Path(fmt.Sprintf("c04cfg-%d", idx))
+	_ = os.MkdirAll(dir, 0755)
+	defer os.RemoveAll(dir)
+	pfx := fmt.Sprintf("c04b%dn%d-", ctx.Batch, idx)
+	forms := []struct{ name, yaml, kind string }{
+		{"absent", "", "pid"},
+		{"string-pid", "    controlAlgorithm: pid\n", "pid"},
+		{"object-pid-defaults", "    controlAlgorithm:\n      pid:\n        p: 0.3\n        i: 0.02\n        d: 0.005\n", "pid"},
+		{"string-direct", "    controlAlgorithm: direct\n", "direct"},
+		{"object-direct-limit", "    controlAlgorithm:\n      direct:\n        maxPwmChangePerCycle: 7\n", "ratelimit"},
+	}
+	var sb strings.Builder
+	sensorFile := filepath.Join(dir, "sensor")
+	_ = os.WriteFile(sensorFile, []byte("50000\n"), 0644)
+	fmt.Fprintf(&sb, "dbPath: %s/fan2go.db\nsensors:\n  - id: %ss\n    file:\n      path: %s\ncurves:\n  - id: %sc\n    linear:\n      sensor: %ss\n      min: 0\n      max: 100\nfans:\n", dir, pfx, sensorFile, pfx, pfx)
+	for i, f := range forms {
+		ff := filepath.Join(dir, fmt.Sprintf("fan%d", i))
+		_ = os.WriteFile(ff, []byte("0\n"), 0644)
+		fmt.Fprintf(&sb, "  - id: %sf%d\n    file:\n      path: %s\n    curve: %sc\n%s", pfx, i, ff, pfx, f.yaml)
+	}
+	cfgPath := filepath.Join(dir, "fan2go.yaml")
+	_ = os.WriteFile(cfgPath, []byte(sb.String()), 0644)
+	viper.Reset()
+	configuration.InitConfig(cfgPath)
+	if err := viper.ReadInConfig(); err != nil {
+		ctx.Inconclusive("C04 config path: " + err.Error())
+		return
+	}
+	configuration.LoadConfig()
+	if err := configuration.Validate(cfgPath); err != nil {
+		ctx.Violation("config-path:documented-algorithm-form-rejected", err.Error(), sb.String())
+		return
+	}
+	reg := prometheus.NewRegistry()
+	prometheus.DefaultRegisterer, prometheus.DefaultGatherer = reg, reg
+	installClock()
+	clockAutoTick = 0
+	fanMap, err := internal.InitializeObjects()
+	if err != nil {
+		ctx.Inconclusive("C04 config path: " + err.Error())
+		return
+	}
+	ctrls, err := internal.VerifInitializeFanControllers(newMemPersistence(), fanMap)
+	if err != nil {
+		ctx.Inconclusive("C04 config path: " + err.Error())
+		return
+	}
+	sensor, _ := sensors.GetSensor(pfx + "s")
+	tick := pick(r, int64(50), 200, 200, 1000)
+	curveVal := pick(r, 0, 255, 128, r.Intn(256))
+	temp := float64(curveVal) / 255 * 100000
+	for i, f := range forms {
+		var ctrl *controller.DefaultFanController
+		for fan, c := range ctrls {
+			if fan.GetId() == fmt.Sprintf("%sf%d", pfx, i) {
+				ctrl = c.(*controller.DefaultFanController)
+			}
+		}
+		if ctrl == nil {
+			ctx.Inconclusive("C04 config path: controller missing for form " + f.name)
+			return
+		}
+		ctrl.VerifSetPwmMap(identityMap())
+		// a history first: the curve somewhere else for a while
+		sensor.SetMovingAvg(float64(r.Intn(100000)))
+		var reqs []int
+		cycles := c04PidN + 300
+		for k := 0; k < 200+cycles; k++ {
+			if k == 200 {
+				sensor.SetMovingAvg(temp)
+			}
+			advance(time.Duration(tick) * time.Millisecond)
+			if e := ctrl.UpdateFanSpeed(); e != nil {
+				ctx.Violation("config-path:error:"+f.name, e.Error(), sb.String())
+				return
+			}
+			if k >= 200 {
+				v, _ := ctrl.VerifLastSetPwm()
+				reqs = append(reqs, v)
+			}
+		}
+		ctx.Eval(int64(len(reqs)))
+		// the linear curve truncates: its value for this temperature
+		want := int(temp / 100000 * 255)
+		if temp >= 100000 {
+			want = 255
+		}
+		desc := map[string]interface{}{"kind": "config-path", "form": f.name, "tickMs": tick, "curve": want}
+		ctx.SampleKind("config-path", desc)
+		lo := c04PidN
+		if f.kind == "direct" {
+			lo = 1
+		} else if f.kind == "ratelimit" {
+			lo = 255/7 + 2
+		}
+		for k := lo; k < len(reqs); k++ {
+			d := reqs[k] - want
+			if d > 1 || d < -1 {
+				ctx.Violation("config-path:not-settled:"+f.name, fmt.Sprintf("%v: request %d in cycle %d, steady value %d; last requests %v", desc, reqs[k], k, want, tail(reqs, 8)), desc)
+				break
+			}
+		}
+		ctx.Nontrivial(fmt.Sprintf("config-path|%s|%d|%d", f.name, tick, want))
+	}
+}
+
 func init() {
 	register("C04", func(ctx *Ctx) {
 		if ctx.Replay != "" {
@@ -372,6 +492,7 @@ func init() {
 				nPid = 40
 			}
 			c04Pid(ctx, cfg, r, nPid)
+			c04ConfigPath(ctx, i)
 		}
 	})
 }
